@@ -6,7 +6,7 @@
 //! at invocation index k followed by resume or by reset + fresh parse.
 //! Function-level `L`/`D` lines (lexer scripts under chunkers, decoder) are emitted as in c13.
 //! usage: c09 <ops-file> [--spec <file>] [lang...]
-//! spec: `<lang> <dochex|-> <drive>` with drive = c<k> | s<p1,p2,..> | u16le | u16be | u16le:c<k> | hist:<ops> | log | cancel:<k>:resume | cancel:<k>:reset
+//! spec: `<lang> <dochex|-> <drive>` with drive = c<k> | s<p1,p2,..> | pt:c<k> | u16le:pt:c<k> | u16be:pt:c<k> | u16le | u16be | u16le:c<k> | hist:<ops> | log | cancel:<k>:resume | cancel:<k>:reset
 use std::io::Write;
 use std::ops::ControlFlow;
 use tree_sitter::{Language, ParseOptions, Parser, Point, Range, Tree};
@@ -48,6 +48,55 @@ fn chunk_end(scheme: &str, byte: usize, len: usize) -> usize {
 fn parse_chunked(p: &mut Parser, doc: &[u8], scheme: &str) -> Option<Tree> {
     let len = doc.len();
     p.parse_with_options(&mut |byte: usize, _pt: Point| if byte >= len { &doc[0..0] } else { &doc[byte..chunk_end(scheme, byte, len)] }, None, None)
+}
+
+/// Offsets at which the lines start (in the units of `text`): a read callback that keeps its text as lines
+/// (rope, line buffer) locates a chunk by the POINT it is given, not by the offset.
+fn line_starts<T: PartialEq + Copy>(text: &[T], nl: T) -> Vec<usize> {
+    let mut v = vec![0];
+    for (i, c) in text.iter().enumerate() {
+        if *c == nl {
+            v.push(i + 1);
+        }
+    }
+    v
+}
+
+/// UTF-8 through `parse_with_options`, chunks of at most `k` bytes located by (row, column).
+/// Returns the tree and the number of calls in which offset and point disagreed.
+fn parse_chunked_by_point(p: &mut Parser, doc: &[u8], k: usize) -> (Option<Tree>, usize) {
+    let len = doc.len();
+    let ls = line_starts(doc, b'\n');
+    let mut bad = 0usize;
+    let t = p.parse_with_options(
+        &mut |byte: usize, pt: Point| {
+            let at = ls.get(pt.row).map(|s| s + pt.column).unwrap_or(len).min(len);
+            if at != byte.min(len) {
+                bad += 1;
+            }
+            &doc[at..(at + k.max(1)).min(len)]
+        },
+        None,
+        None,
+    );
+    (t, bad)
+}
+
+/// UTF-16 through `parse_utf16_{le,be}_with_options`, chunks of at most `k` units located by (row, column in units).
+fn parse_u16_by_point(p: &mut Parser, units: &[u16], be: bool, k: usize) -> (Option<Tree>, usize) {
+    let conv: Vec<u16> = if be { units.iter().map(|u| u.to_be()).collect() } else { units.iter().map(|u| u.to_le()).collect() };
+    let n = conv.len();
+    let ls = line_starts(units, 0x0A);
+    let mut bad = 0usize;
+    let mut cb = |u: usize, pt: Point| {
+        let at = ls.get(pt.row).map(|s| s + pt.column).unwrap_or(n).min(n);
+        if at != u.min(n) {
+            bad += 1;
+        }
+        &conv[at..(at + k.max(1)).min(n)]
+    };
+    let t = if be { p.parse_utf16_be_with_options(&mut cb, None, None) } else { p.parse_utf16_le_with_options(&mut cb, None, None) };
+    (t, bad)
 }
 
 fn to_utf16(doc: &[u8]) -> Option<(Vec<u16>, Vec<(usize, usize)>)> {
@@ -186,6 +235,22 @@ fn emit_drive(out: &mut impl Write, cid: &str, n: &mut usize, st: &mut Stats, ki
 }
 
 fn run_drive(out: &mut impl Write, cid: &str, n: &mut usize, st: &mut Stats, cx: &Ctx, doc: &[u8], drive: &str) {
+    if let Some(k) = drive.strip_prefix("pt:c").and_then(|k| k.parse::<usize>().ok()) {
+        // point-addressed UTF-8 callback
+        let (t, bad) = parse_chunked_by_point(&mut fresh(cx.lang), doc, k);
+        emit_drive(out, cid, n, st, "chunk", &format!("c{k}"), &format!("ptbad {bad}"), t);
+        return;
+    }
+    if drive.starts_with("u16") && drive.contains(":pt:c") {
+        if let Some((units, map)) = to_utf16(doc) {
+            let be = drive.starts_with("u16be");
+            let k = drive.rsplit_once(":c").and_then(|(_, k)| k.parse().ok()).unwrap_or(1);
+            let (t, bad) = parse_u16_by_point(&mut fresh(cx.lang), &units, be, k);
+            let m: Vec<String> = map.iter().map(|(a, b)| format!("{a}:{b}")).collect();
+            emit_drive(out, cid, n, st, "utf16", drive, &format!("map {}\nptbad {bad}", m.join(",")), t);
+        }
+        return;
+    }
     if drive.starts_with('c') && drive[1..].chars().all(|c| c.is_ascii_digit()) || drive.starts_with('s') && drive[1..].chars().all(|c| c.is_ascii_digit() || c == ',') {
         let t = parse_chunked(&mut fresh(cx.lang), doc, drive);
         emit_drive(out, cid, n, st, "chunk", drive, "", t);
@@ -263,7 +328,14 @@ fn drives_for(rng: &mut Rng, lang: &Language, doc: &[u8], thorough: bool) -> Vec
             v.push(format!("s{}", sp.iter().map(|x| x.to_string()).collect::<Vec<_>>().join(",")));
         }
     }
+    for k in [3, 5, rng.range(4, 9)] {
+        v.push(format!("pt:c{k}"));
+    }
     if std::str::from_utf8(doc).is_ok() {
+        for k in [2, rng.range(1, 6)] {
+            v.push(format!("u16le:pt:c{k}"));
+            v.push(format!("u16be:pt:c{k}"));
+        }
         v.push("u16le".into());
         v.push("u16be".into());
         v.push(format!("u16le:c{}", rng.range(1, 3)));
